@@ -4,10 +4,18 @@ tak.self_play, tak.model.server, tak.model.grpc and tak.alphazero.trainer
 import unmodified.  Importing this module installs them in sys.modules.
 For spawned worker processes put /verif/shims on PYTHONPATH: the
 sitecustomize.py next to this package imports it automatically."""
+import importlib.machinery
 import sys
 import types
 
 import numpy as np
+
+
+def _module(name):
+    m = types.ModuleType(name)
+    # torch._dynamo probes optional packages with importlib.util.find_spec, which raises on __spec__ = None
+    m.__spec__ = importlib.machinery.ModuleSpec(name, None)
+    return m
 
 
 def _install():
@@ -15,8 +23,8 @@ def _install():
         try:
             import grpc  # noqa: F401
         except Exception:
-            g = types.ModuleType("grpc")
-            g.aio = types.ModuleType("grpc.aio")
+            g = _module("grpc")
+            g.aio = _module("grpc.aio")
 
             class _Server:
                 def add_insecure_port(self, *a):
@@ -48,7 +56,7 @@ def _install():
         try:
             import tqdm  # noqa: F401
         except Exception:
-            t = types.ModuleType("tqdm")
+            t = _module("tqdm")
 
             class tqdm:  # noqa
                 def __init__(self, *a, **k):
@@ -71,7 +79,7 @@ def _install():
     except Exception:
         have_pb = False
     if not have_pb:
-        pb = types.ModuleType("tak.proto.analysis_pb2")
+        pb = _module("tak.proto.analysis_pb2")
 
         class EvaluateRequest:
             def __init__(self, position=()):
@@ -86,7 +94,7 @@ def _install():
 
         pb.EvaluateRequest = EvaluateRequest
         pb.EvaluateResponse = EvaluateResponse
-        pbg = types.ModuleType("tak.proto.analysis_pb2_grpc")
+        pbg = _module("tak.proto.analysis_pb2_grpc")
 
         class AnalysisServicer:
             pass
